@@ -70,7 +70,13 @@ func init() {
 			w.failAt = int(c.num("failAt"))
 			w.once = c.boolean("once")
 		}
-		m := astits.NewMuxer(context.Background(), w, astits.MuxerOptTablesRetransmitPeriod(int(c.num("period"))))
+		// period 0: no option at all (the library's default period applies)
+		var m *astits.Muxer
+		if int(c.num("period")) == 0 {
+			m = astits.NewMuxer(context.Background(), w)
+		} else {
+			m = astits.NewMuxer(context.Background(), w, astits.MuxerOptTablesRetransmitPeriod(int(c.num("period"))))
+		}
 		view := c.str("view")
 		var outs []string
 		last := ""
